@@ -597,8 +597,19 @@ func removableByVehicleUnplan(sol nextroute.Solution, st nextroute.SolutionStop)
 		}
 		mu = p
 	}
-	if su := sol.SolutionPlanUnit(mu); su != nil && su.IsFixed() {
+	su := sol.SolutionPlanUnit(mu)
+	if su != nil && su.IsFixed() {
 		return false
+	}
+	// (since the repair of E34) a unit with stops on another vehicle as well is not touched
+	if su != nil {
+		for _, m := range memberStopsUnits(su) {
+			for _, x := range m.SolutionStops() {
+				if x.IsPlanned() && x.Vehicle().Index() != st.Vehicle().Index() {
+					return false
+				}
+			}
+		}
 	}
 	return true
 }
